@@ -306,6 +306,7 @@ void WalletSim::CreateWallet()
     wallet::DatabaseOptions options;
     options.require_create = true;
     options.create_flags = wallet::WALLET_FLAG_DESCRIPTORS | (m_opts.avoid_reuse ? wallet::WALLET_FLAG_AVOID_REUSE : 0);
+    wallet::ReadDatabaseArgs(*m_context->args, options); // -unsafesqlitesync
     wallet::DatabaseStatus status;
     bilingual_str error;
     auto database = wallet::MakeWalletDatabase("", options, status, error);
@@ -325,7 +326,14 @@ void WalletSim::UnloadWallet()
 void WalletSim::LoadWallet()
 {
     if (m_wallet) throw std::runtime_error("WalletSim: wallet already present");
-    m_wallet = wallet::TestLoadWallet(*m_context);
+    wallet::DatabaseOptions options;
+    options.require_existing = true;
+    wallet::ReadDatabaseArgs(*m_context->args, options);
+    wallet::DatabaseStatus status;
+    bilingual_str error;
+    auto database = wallet::MakeWalletDatabase("", options, status, error);
+    if (!database) throw std::runtime_error("WalletSim: MakeWalletDatabase failed: " + error.original);
+    m_wallet = wallet::TestLoadWallet(std::move(database), *m_context);
     if (!m_wallet) throw std::runtime_error("WalletSim: wallet load failed");
     Drain();
 }
@@ -574,6 +582,7 @@ void WalletSim::Reconsider(const uint256& hash)
         CBlockIndex* pi = Chainman().m_blockman.LookupBlockIndex(hash);
         if (!pi) return;
         Chainman().ActiveChainstate().ResetBlockFailureFlags(pi);
+        Chainman().RecalculateBestHeader(); // as the reconsiderblock RPC does
     }
     BlockValidationState state;
     Chainman().ActiveChainstate().ActivateBestChain(state);
@@ -591,16 +600,22 @@ void WalletSim::Sync()
     Drain();
     m_ledger->Refresh();
     m_faucet_ledger->Refresh();
-    // the wallet forgets a lock as soon as any wallet transaction spends the coin
+    // the wallet forgets a lock when a transaction spending the coin is added to it
+    const auto& order = m_ledger->KnownOrder();
     for (auto it = m_locked.begin(); it != m_locked.end();) {
         bool spent = false;
-        for (const auto& [txid, tx] : m_ledger->KnownTxs()) {
-            for (const auto& in : tx->vin) {
+        for (size_t i = m_lock_mark[*it]; i < order.size() && !spent; ++i) {
+            for (const auto& in : m_ledger->KnownTxs().at(order[i])->vin) {
                 if (in.prevout == *it) spent = true;
             }
-            if (spent) break;
         }
-        it = spent ? m_locked.erase(it) : std::next(it);
+        if (spent) {
+            m_lock_mark.erase(*it);
+            it = m_locked.erase(it);
+        } else {
+            m_lock_mark[*it] = order.size();
+            ++it;
+        }
     }
     // release faucet reservations whose coin is now visibly spent or gone
     for (auto it = m_faucet_reserved.begin(); it != m_faucet_reserved.end();) {
@@ -609,19 +624,22 @@ void WalletSim::Sync()
     }
 }
 
-bool WalletSim::Lock(const COutPoint& op, bool persist)
+bool WalletSim::Lock(const COutPoint& op_in, bool persist)
 {
+    const COutPoint op{op_in};
     LOCK(m_wallet->cs_wallet);
     const bool r = m_wallet->LockCoin(op, persist);
-    if (r) m_locked.insert(op);
+    if (r && m_locked.insert(op).second) m_lock_mark[op] = m_ledger->KnownOrder().size();
     return r;
 }
 
-bool WalletSim::Unlock(const COutPoint& op)
+bool WalletSim::Unlock(const COutPoint& op_in)
 {
+    const COutPoint op{op_in}; // the argument may refer to an element of m_locked
     LOCK(m_wallet->cs_wallet);
     const bool r = m_wallet->UnlockCoin(op);
     m_locked.erase(op);
+    m_lock_mark.erase(op);
     return r;
 }
 
